@@ -13,6 +13,13 @@ CLAIMED = {
             "Trusted: CrossHair + z3 + struct.Struct patch; zero-coding replaced by identity except in zerocoded_real "
             "(justified by C03); JankStringyBytes replaced by bytes except in jank_bytes_catalogue; maybe_reload_templates stubbed.",
             "DESIGN.md §1 C01"),
+    "C02": ("CrossHair/z3 symbolic execution of the real header parser / lazy+eager body parser / serializer on symbolic "
+            "datagram bytes (id, extra, body, ack tail symbolic; flags catalogue; message number pinned) with a symbolic "
+            "inspection order and an independent wire-walker oracle for exact consumption",
+            "Bounded symbolic model checking over datagram bytes within the stated lengths; quick tier covers the two small "
+            "templates, thorough adds the text/Multiple/optional-block templates and real zero-coding.",
+            "Trusted: CrossHair + z3; JankStringyBytes replaced by bytes; count/length bytes restricted to {0..3,255}.",
+            "DESIGN.md §1 C02"),
     "C03": ("CrossHair/z3 path-exhaustive symbolic execution of the real encoder/decoder loop bodies: one-step "
             "inductive lemmas from an arbitrary loop state (all lengths) + bounded whole-function equivalence",
             "Bounded symbolic model checking: every (state, byte) step of the real loops is decided by z3 for all values; "
